@@ -311,6 +311,62 @@ def eval_reassign(fam, tname, d, d2):
     return 'reassign|' + tname, viols
 
 
+SAME = {'int': lambda x: int(x), 'float': lambda x: float(x), 'Decimal': lambda x: D(x), 'Fraction': lambda x: F(x)}
+
+
+def eval_promo_seq(fam, ctor, kinds_a, kinds_b):
+    """the same three numerical values (2, 3, 5) first in the types kinds_a, then in the types kinds_b: the types of the
+    second object are decided by kinds_b alone."""
+    out = []
+    cell = 'promotion-sequence|%s' % ctor
+    mk = {'Vector': lambda vs: comps(Vector(*vs)), 'Vector-list': lambda vs: comps(Vector(list(vs))), 'Point': lambda vs: (lambda p: [p.x, p.y, p.z])(Point(*vs))}[ctor]
+    for kinds in (kinds_a, kinds_b):
+        vals = [SAME[k](x) for k, x in zip(kinds, (2, 3, 5))]
+        r = lib.call(mk, vals)
+        top = min(kinds, key=lambda k: RANK[k])
+        want_t = {'int': int, 'float': float, 'Decimal': D, 'Fraction': F}[top]
+        sc = core.enc(('promo-seq', ctor, kinds_a, kinds_b))
+        if isinstance(r, lib.Raised):
+            out.append(Viol('C18|promotion-sequence|%s|%s|raises:%s' % (ctor, top, r.cls), sc, top, repr(r), 'constructor raised'))
+        elif any(type(g) is not want_t for g in r) or [F(g) for g in r] != [2, 3, 5]:
+            out.append(Viol('C18|promotion-sequence|%s|%s|wrong-type-or-value' % (ctor, top), sc, top, tdesc(r),
+                            'coordinates (2, 3, 5) given as %s right after the same values given as %s' % (kinds, kinds_a)))
+        if out:
+            break
+    return cell, out
+
+
+def eval_reassign_mixed(fam, t1, t2, d, d2):
+    """a vector with coordinates of type t1; coordinates of type t2 (non-integral values) are assigned in place; the stored
+    values, dot and cross products and scalar multiples are those of the assigned values."""
+    c1 = {'int': int, 'float': float, 'Fraction': F, 'Decimal': D}
+    v = Vector(*[c1[t1](c) for c in d])
+    new = [F(c) + F(1, 2) * (1 if i != 1 else -1) / (1 if i else 2) for i, c in enumerate(d2)]    # halves and quarters
+    if t2 == 'int':
+        new = [F(c) + (3, -1, 2)[i] for i, c in enumerate(d2)]
+    sc = core.enc(('reassign-mixed', t1, t2, d, d2))
+    viols = []
+    for i in range(3):
+        v[i] = c1[t2](new[i]) if t2 != 'float' else float(new[i])
+    got = lib.call(comps, v)
+    if isinstance(got, lib.Raised) or [F(g) for g in got] != new:
+        viols.append(Viol('C18|reassign-mixed|%s<-%s|stored-value-differs-from-assigned' % (t1, t2), sc, [str(x) for x in new], lib.describe(got), 'v[i] = c then v[i]'))
+        return 'reassign-mixed|%s<-%s' % (t1, t2), viols
+    wv = [F(3, 2), F(-2), F(1, 4)] if t2 != 'int' else [F(3), F(-2), F(1)]
+    w = Vector(*[c1[t2](c) if t2 != 'float' else float(c) for c in wv])
+    dot = lib.call(lambda: v * w)
+    if isinstance(dot, lib.Raised) or F(dot) != sum(a * b for a, b in zip(new, wv)):
+        viols.append(Viol('C18|reassign-mixed|%s<-%s|dot' % (t1, t2), sc, str(sum(a * b for a, b in zip(new, wv))), lib.describe(dot), 'dot product after in-place assignment'))
+    cr = lib.call(lambda: comps(v.cross(w)))
+    ex = [new[1] * wv[2] - new[2] * wv[1], new[2] * wv[0] - new[0] * wv[2], new[0] * wv[1] - new[1] * wv[0]]
+    if isinstance(cr, lib.Raised) or [F(x) for x in cr] != ex:
+        viols.append(Viol('C18|reassign-mixed|%s<-%s|cross' % (t1, t2), sc, [str(x) for x in ex], lib.describe(cr), 'cross product after in-place assignment'))
+    sm = lib.call(lambda: comps(v + w))
+    if isinstance(sm, lib.Raised) or [F(x) for x in sm] != [a + b for a, b in zip(new, wv)]:
+        viols.append(Viol('C18|reassign-mixed|%s<-%s|add' % (t1, t2), sc, [str(a + b) for a, b in zip(new, wv)], lib.describe(sm), 'sum after in-place assignment'))
+    return 'reassign-mixed|%s<-%s' % (t1, t2), viols
+
+
 def eval_consts(fam):
     viols = []
     for name, th, exp in (('zero', Vector.zero, [0, 0, 0]), ('x_unit_vector', x_unit_vector, [1, 0, 0]),
@@ -350,6 +406,10 @@ def eval_scene(fam, s):
         return eval_tiny(fam, s[1], s[2])
     if k == 'reassign':
         return eval_reassign(fam, s[1], s[2], s[3])
+    if k == 'promo-seq':
+        return eval_promo_seq(fam, s[1], s[2], s[3])
+    if k == 'reassign-mixed':
+        return eval_reassign_mixed(fam, s[1], s[2], s[3], s[4])
     raise core.HarnessError('bad scene')
 
 
@@ -422,6 +482,12 @@ def families(tier):
     fams.append(ListFamily('tiny-differences', [('tiny', a, b) for a in tv[::3] for b in tv], chunk=400))
     ds = A.D1 if tier == 'quick' else A.D2
     fams.append(ListFamily('reassign', [('reassign', t, d, d2) for t in ('int', 'float', 'Fraction') for d in ds[::2] for d2 in ds], chunk=200))
+    k4 = ('int', 'float', 'Decimal', 'Fraction')
+    trip = list(product(k4, repeat=3))
+    fams.append(ListFamily('promotion-sequence', [('promo-seq', c, ka, kb) for c in ('Vector', 'Vector-list', 'Point') for ka in trip for kb in trip if ka != kb], chunk=400))
+    # Decimal is left out as the assigned type: Decimal x float arithmetic is a TypeError in Python itself
+    fams.append(ListFamily('reassign-mixed', [('reassign-mixed', t1, t2, d, d2) for t1 in ('int', 'float', 'Fraction') for t2 in ('int', 'float', 'Fraction')
+                                              for d in ds[::3] for d2 in ds[::2]], chunk=200))
     return fams
 
 
